@@ -717,7 +717,7 @@ def gen_chain(rnd, cid, pool, force=None):
     versions.append(s)
     nsteps = rnd.choice([1, 2, 3, 4])
     if force:
-        nsteps = max(nsteps, 2)
+        nsteps = max(nsteps, 3)
     control = None
     ever_used = set(f.index for f in s.fields)   # an index is never reused with another meaning
     for step in range(1, nsteps + 1):
@@ -733,6 +733,8 @@ def gen_chain(rnd, cid, pool, force=None):
         edit = rnd.choice(["add_high", "add_gap", "drop_opt", "add_variant", "unit_to_fields", "flip_nb", "add_high", "add_gap"])
         if force and step == 1:
             edit = "unit_to_fields"
+        if force and step == 3:
+            edit = "add_variant"     # the last forced step: older readers meet a variant they do not know
         if force and step == 2:
             edit = "add_gap"
             newt = [BYTES_OPT_VEC, NIL_FNS, BYTES_OPT_VEC_Q, opt(STRING), BYTES_OPT_VEC_C][force[4]]
